@@ -7,6 +7,7 @@ package gen10
 
 import (
 	"context"
+	"encoding/hex"
 	"fmt"
 	"sort"
 	"strings"
@@ -74,6 +75,8 @@ type RuleSpec struct {
 	Cons   []ConsSpec
 	Labels []string
 	Iso    string
+	Start  string // key range of the rule (raw keys, "" = unbounded)
+	End    string
 }
 
 type CfgSpec struct {
@@ -388,6 +391,13 @@ func Generate(r *rng.R, o GenOpt) ClusterSpec {
 			c.Rules = append(c.Rules, ru)
 		}
 		tag(fmt.Sprintf("rules:n=%d", nr))
+		if r.Pct(8) {
+			// rule sets that do NOT cover the region: two voter rules meeting at a key inside region 1000
+			k := fmt.Sprintf("%020d", reg.ID) + "5"
+			c.Rules = []RuleSpec{{ID: "left", Index: 1, Role: "voter", Count: c.Cfg.MaxReplicas, End: k},
+				{ID: "right", Index: 2, Role: "voter", Count: c.Cfg.MaxReplicas, Start: k}}
+			tag("rules:boundary-inside-region")
+		}
 	}
 	return c
 }
@@ -505,7 +515,8 @@ func Build(spec ClusterSpec) *Built {
 	if spec.Cfg.Rules {
 		for _, ru := range spec.Rules {
 			pr := &placement.Rule{GroupID: "pd", ID: ru.ID, Index: ru.Index, Role: placement.PeerRoleType(ru.Role), Count: ru.Count,
-				LocationLabels: append([]string{}, ru.Labels...), IsolationLevel: ru.Iso}
+				LocationLabels: append([]string{}, ru.Labels...), IsolationLevel: ru.Iso,
+				StartKeyHex: hex.EncodeToString([]byte(ru.Start)), EndKeyHex: hex.EncodeToString([]byte(ru.End))}
 			for _, cs := range ru.Cons {
 				pr.LabelConstraints = append(pr.LabelConstraints, placement.LabelConstraint{Key: cs.Key, Op: placement.LabelConstraintOp(cs.Op), Values: cs.Values})
 			}
@@ -669,8 +680,11 @@ func (bt *Built) CoqFit() (string, *placement.RegionFit) {
 	return fmt.Sprintf("Fit %s %s", "["+strings.Join(rfs, ";\n      ")+"]", coqPeers(fit.OrphanPeers)), fit
 }
 
-// CoqInput prints `Input cfg stores region fit entry`.
-func (bt *Built) CoqInput(entry string) string {
+// CoqInput prints `Input cfg stores region fit entry menv`.
+func (bt *Built) CoqInput(entry string, menv string) string {
 	fit, _ := bt.CoqFit()
-	return fmt.Sprintf("Input (%s)\n   %s\n   (%s)\n   (%s) %s", bt.CoqConfig(), bt.CoqStores(), bt.CoqRegion(), fit, entry)
+	return fmt.Sprintf("Input (%s)\n   %s\n   (%s)\n   (%s) %s\n   %s", bt.CoqConfig(), bt.CoqStores(), bt.CoqRegion(), fit, entry, menv)
 }
+
+// CoqPeerList prints a peer list.
+func CoqPeerList(ps []*metapb.Peer) string { return coqPeers(ps) }
